@@ -69,6 +69,13 @@ def segments(raw: list[dict[str, Any]], conf: dict[str, Any], rid: str, plurals:
             seg = {'id': f'{rid}/{k[0]}/{plural}|{k[2]}#{sum(1 for s in out if s["key"] == k) + 1}', 'key': k, 'conf': conf, 't0': t,
                    'paused0': sorted(paused.get(e.get('loop'), set())) if pausable is None or plural in pausable else [], 'events': [{'ev': 'spawn', 't': t}], 'open': True}
             cur[k] = seg; by_sched[(e.get('loop'), e.get('sched'))] = seg; out.append(seg)
+        elif ev == 'op.kill':           # the process is gone: nothing more is heard of its watchers
+            for k in [k for k in cur if k[0] == e.get('loop')]:
+                cur.pop(k)['open'] = False
+            for k in [k for k in by_sched if k[0] == e.get('loop')]:
+                by_sched.pop(k)
+            for w in [w for w, sg in by_watch.items() if sg['key'][0] == e.get('loop')]:
+                by_watch.pop(w)
         elif ev == 'q.depleting':
             seg = by_sched.pop((e.get('loop'), e.get('sched')), None)
             if seg is not None and seg['open']:
